@@ -2,7 +2,7 @@ import Xo.Model.DictForm
 import Xo.Drv.Util
 /-! line-protocol driver of the dictionary / JSON form model (component `dict`)
 
-  univ <c0>;<c1>;…      class = `xo>py=K,…`   K: n<default> | a (array of dynamic shape: no default) | z<n> (static array of n) | N<cls> | R<cls>
+  univ <c0>;<c1>;…      class = `xo>py=K,…`   K: n<default> | a (array of dynamic shape: no default) | d<v>/<v>/… (array / text of dynamic size WITH a declared default; `d-`: empty) | z<n> (static array of n) | N<cls> | R<cls>
   todict <cls> <V>      → canonical dictionary (keys sorted)       V: `n<int>` | `a<int>/<int>/…` (`a-`: empty) | `_` | `(V V …)`
   rt <cls> <V>          → `same` | `differs <V'>`     (fromDict ∘ toDict)
   json <JT> <JV>        → canonical JSON;   JT: n | s | [JT] | {name:JT,…}    JV: n<int> | s<hex> | [JV,…] | {JV,…}
@@ -18,6 +18,10 @@ def parseK (w : String) : Option FK :=
   if w.startsWith "n" then (w.drop 1).toInt?.map fun d => .num (some [d])
   else if w == "a" then some (.num none)
   else if w.startsWith "z" then (w.drop 1).toNat?.map fun n => .num (some (List.replicate n 0))
+  else if w == "d-" then some (.num (some []))
+  else if w.startsWith "d" then
+    let ps := ((w.drop 1).toString.splitOn "/").map (·.toInt?)
+    if ps.all (·.isSome) then some (.num (some (ps.filterMap id))) else none
   else if w.startsWith "N" then (w.drop 1).toNat?.map .obj
   else if w.startsWith "R" then (w.drop 1).toNat?.map .optobj
   else none
@@ -141,7 +145,7 @@ def step (s : St) (line : String) : St × String :=
       let arrs := ((spec.splitOn ";").zipIdx.flatMap fun (w, ci) =>
         (w.splitOn ",").filterMap fun e =>
           match e.splitOn "=" with
-          | [names, k] => if k == "a" || k.startsWith "z" then (names.splitOn ">")[1]?.map fun py => (ci, py) else none
+          | [names, k] => if k == "a" || k.startsWith "z" || k.startsWith "d" then (names.splitOn ">")[1]?.map fun py => (ci, py) else none
           | _ => none)
       ({ u, arrs }, "ok")
     | none => (s, "bad-op")
